@@ -187,6 +187,7 @@ def cmd_check(prop_id, tier):
         "explanation": spec["explanation"],
         "configs": configs,
         "bodies_analysed": nbodies,
+        "helpers_inlined": {c: sorted({"%s <- %s" % (a, h) for a, h in models[c].prog.inlined}) for c in configs},
         "distinct_sites": len(ctx.sites),
         "lemma_instances": {k: v[0] for k, v in by_lemma.items()},
         "lemma_holds": {k: v[1] for k, v in by_lemma.items()},
